@@ -450,7 +450,7 @@ impl Monitor for C18 {
          sources or targets, a per-hyperedge segment boundary shifted with the flat incidence array unchanged, codomain of either map off by one, domain of the node map too small), (c) random junk maps. Oracle: the set of naturality conditions {W,X,S,T} that fail on the \
          plain model; Ok iff the set is empty; an Err must name a member of the set (type-mismatch variants only when the codomain really is wrong); monomorphism = both tables injective; \
          convexity = monomorphism and exhaustive search over (node, used-an-outside-edge) states finds no image node reachable from an image node through an outside edge. \
-         non-trivial = target with >=2 hyperedges; distinct = hash of (source, target, maps). Also: is_monomorphism asked of every pair of maps (through the public fields, accepted or not), five more ways of mistyping a map (either domain too small / too large, codomain too small, both codomains), paths of 200 operations for the convexity search; floors per perturbation class; a map whose declared codomain is not the target's node / hyperedge set is mistyped and must be rejected."
+         non-trivial = target with >=2 hyperedges; distinct = hash of (source, target, maps). Also: is_monomorphism asked of every pair of maps (through the public fields, accepted or not), five more ways of mistyping a map (either domain too small / too large, codomain too small, both codomains), paths of 200 operations for the convexity search; floors per perturbation class; a map whose declared codomain is not the target's node / hyperedge set is mistyped and must be rejected. Round 8: node maps of 1024-1600 entries asked about five times while the table is edited in place through the public fields (entry j := entry i, then restored), then dropped and rebuilt three times at the same size with / without a collision in the last entry."
     }
     fn corpus_len(&self) -> u64 {
         corpus().len() as u64
